@@ -80,9 +80,9 @@ def hid_scenarios(tier, seed):
     for drv in ("tridonic", "hasseb"):
         for key in ("q16", "cfg", "qdt6", "dapc"):
             for cond in [{"writes": w} for w in range(1, 5)] + [{"reports": w} for w in range(1, 8)] + [{"time": 0.0}]:
-                # hasseb has no sequence numbers: a cancelled query's answer can only be told apart from the next one
-                # when it is delivered before the next write, so only the prompt plan is used there
-                for plan in (([1] * 20, [-1], [0, 1, 0, 1, 1, 1, 1, 1, 1, 1, 1, 1]) if drv == "tridonic" else ([-1],)):
+                # hasseb has no sequence numbers: a cancelled query's answer that is delivered after the next write is
+                # taken for the next query's answer (known finding orphaned-answer-after-cancel)
+                for plan in ([1] * 20, [-1], [0, 1, 0, 1, 1, 1, 1, 1, 1, 1, 1, 1]):
                     scs.append({"driver": drv, "callers": [{"name": "A", "mode": "send", "unit": [[key, 3], ["q16", 4]],
                                                            "cancel": cond},
                                                           {"name": "B", "mode": "send", "unit": [["q16", 9]],
@@ -104,6 +104,15 @@ def serial_scenarios(tier, seed):
                 scs.append({"driver": drv, "outcomes": [outcome],
                             "callers": [{"name": "A", "mode": "send", "unit": [[key, 2], ["q16", 3]]}], "tail_sends": 5,
                             "tag": "silent-answer"})
+        # a caller cancelled at every await point of a send (lock wait, confirmation wait, answer wait), a second caller
+        # behind it, then further sends
+        for key in ("q16", "cfg", "qdt6", "dapc"):
+            for cond in [{"writes": w} for w in range(1, 4)] + [{"reports": w} for w in range(1, 5)] + [{"time": 0.0}]:
+                for plan in ([1] * 20, [-1], [0, 0, 0, 1, 1, 1, 1, 1, 1, 1, 1, 1]):
+                    scs.append({"driver": drv, "outcomes": [["val", 7], ["val", 200], ["none", 0], ["val", 31]],
+                                "callers": [{"name": "A", "mode": "send", "unit": [[key, 3], ["q16", 4]], "cancel": cond},
+                                            {"name": "B", "mode": "send", "unit": [["q16", 9]], "start": {"writes": 1}}],
+                                "release_plan": list(plan), "tail_sends": 20, "tag": "serial-cancel"})
     return scs
 
 
@@ -170,7 +179,7 @@ def run(tier, seed, replay=None):
                     "scenarios in which the device was actually lost, a caller was actually cancelled, or the serial "
                     "gateway stayed silent; every run ends with the device back and 300 (serial: 5-20) further sends")
         out.extra["by_tag"] = {t: sum(1 for s_ in scs if s_["tag"].split(":")[0] == t) for t in
-                               ("hid", "cancel", "silent-confirm", "silent-answer")}
+                               ("hid", "cancel", "silent-confirm", "silent-answer", "serial-cancel")}
         out.extra["expect_failed_runs"] = sum(s_["params"]["expect_failed"] for s_ in slim)
         byid = {r["id"]: r for r in recs}
         s0 = recs[1]
@@ -181,8 +190,14 @@ def run(tier, seed, replay=None):
                            "reconnect attempts are observed as open() calls on the fake OS with virtual timestamps"]
         rej = [({"scenario": byid[rj[1]]["scenario"]}, {"clause": rj[2], "at": rj[3], "driver": byid[rj[1]]["driver"]}) for rj in rejects]
         out.classify(rej, match_known)
+        kf = {}
+        for f, case, verdict in out.known:
+            kf[verdict.get("driver", "?")] = kf.get(verdict.get("driver", "?"), 0) + 1
+        out.extra["known_finding_runs_by_driver"] = kf
     return out.finish()
 
 
 def match_known(f, case, verdict):
-    return False
+    # the witness is computed by TLC (AsyncJudge!Orphan) and is part of the clause
+    return f.get("id") == "orphaned-answer-after-cancel" and verdict.get("driver") in ("hasseb", "luba", "sci") \
+        and str(verdict.get("clause", "")).endswith(":after-a-send-cancelled-in-flight")
